@@ -371,7 +371,31 @@ def big_peer_file():
     order = list(range(130)) + [3, 77, 129, 0]
     socks = {c['key']: (i, c) for i, c in enumerate(w.conns)}
     n = 0
+    # the wall clock behind the time stamps in the file belongs to the harness: it runs forward 60 s per greeting, is stepped
+    # back two hours after the 60th greeting (a clock correction) and again after the 120th
+    import datetime as _dt
+    import skepticoin.networking.disk_interface as di
+
+    class _Now:
+        t = _dt.datetime(2024, 1, 1, 12, 0, 0)
+
+        @classmethod
+        def utcnow(cls):
+            return cls.t
+
+        @classmethod
+        def now(cls, *a):
+            return cls.t
+
+    class _DtShim:
+        datetime = _Now
+
+        def __getattr__(self, name):
+            return getattr(_dt, name)
+    if hasattr(di, 'datetime'):
+        seams.rebind(di, 'datetime', _DtShim())
     for j in order:
+        _Now.t = _dt.datetime(2024, 1, 1, 12, 0, 0) + _dt.timedelta(seconds=60 * n - (7200 if n >= 60 else 0) - (7200 if n >= 120 else 0))
         key = (addrs[j][0], addrs[j][1], 'OUTGOING')
         if key not in socks or not socks[key][1]['open']:
             continue          # the node did not dial / dropped it (an escaped exception is reported by the invariants)
